@@ -211,8 +211,40 @@ def flip_check(I, scope, outcome):
                  meta={'expr': f'arrays[{k!r}] flipped once along axis a iff the bins at position a decrease (flips: {flips})'})
 
 
+# ---- the requested edition: Scanner.batch_number maps a (positive or negative) index to the batch number at that position
+SCANF = 'valjean/eponine/tripoli4/scan.py'
+
+
+def c_batch_number():
+    return Contract(SCANF, 'Scanner.batch_number', params={'batch_index': 'Int'}, returns='Int',
+                    requires=['-len(edition_numbers) <= batch_index and batch_index < len(edition_numbers)'],
+                    ensures=[('C10-the-edition-at-the-requested-position-counted-from-the-end-when-negative',
+                              'same(returned, edition_numbers[batch_index if batch_index >= 0 else len(edition_numbers) + batch_index])')], signals={})
+
+
+def batch_number_world():
+    from pyvc.verify import World
+    w = World()
+    w.globals['LOGGER'] = SNamespace('LOGGER', dropped=True)
+
+    class ScannerM(ClassModel):
+        name = 'Scanner'
+        fields = {}
+
+        def m_keys(self, I, me):
+            return I.edition_numbers      # the batch numbers of the stored editions, in listing order (Mapping.keys of the ordered dictionary)
+    w.class_models['Scanner'] = ScannerM(w)
+    return w
+
+
+def batch_number_setup(I, scope):
+    I.edition_numbers = I.fresh(parse_type('Seq[Int]'), 'edition_numbers')
+    scope.set('edition_numbers', I.edition_numbers)
+    scope.set('self', I.alloc('Scanner', {'_collres': I.edition_numbers}))
+
+
 def units(tier):
-    return ['result_with_error', 'array_result', 'flip_bins', 'native', 'native_apollo3']
+    return ['result_with_error', 'array_result', 'flip_bins', 'batch_number', 'native', 'native_apollo3']
 
 
 def _replay_native(name, inp):
@@ -252,6 +284,8 @@ def run_unit(unit, tier, seed, known):
         w = _conv_world()
         w.class_models['StructArray'] = StructArray(w)
         return {'functions': [D(verify_function(w, c_array_result(), setup=array_setup))]}
+    if unit == 'batch_number':
+        return {'functions': [D(verify_function(batch_number_world(), c_batch_number(), setup=batch_number_setup))]}
     if unit == 'flip_bins':
         return {'functions': [D(verify_function(flip_world(), c_flip(), setup=flip_setup, extra_check=flip_check))]}
     raise KeyError(unit)
